@@ -26,8 +26,11 @@ func vC03Check(ch Channel, size uint32, after []byte, msize int) bool {
 	vObserve("err", err != nil)
 	if size < 4 {
 		vAssert(err != nil, "C03: impossible length (<4) yields an error")
+		vAssert(Overflow(err) == 0, "C03: an impossible length is not an overflow")
 		vReach("c03.tiny")
-		return false
+		// the length prefix is all there is to such a frame: the next frame
+		// starts right after it (checked by the resync harness)
+		return true
 	}
 	need := uint64(size) - 4
 	if need > uint64(len(after)) {
@@ -119,7 +122,10 @@ func vC03Resync(msize int, sh *vShape, nsmall int) {
 	var f1 []byte
 	var f1size uint32
 	var f1after []byte
-	switch ndChoice("f1", 4) {
+	switch ndChoice("f1", 5) {
+	case 4: // impossible length: the 4-byte prefix alone
+		f1size = uint32(ndChoice("tinysize", 4))
+		f1after = nil
 	case 0: // valid
 		k, m := vC03SmallMsg(ndChoice("f1small", nsmall))
 		body := refEncode(k, Tag(ndU16("tag1")), m)
@@ -189,4 +195,34 @@ func VerifC03_TreadClamp() {
 	vAssert(uint64(tr.Count)+11 <= uint64(m), "C03: reply permitted by the received count fits msize")
 	vAssert(vImplies(uint64(count)+11 <= uint64(m), tr.Count == count), "C03: fitting count unchanged")
 	vReach("c03.clamp")
+}
+
+
+// E: a channel created with a larger msize and lowered afterwards (as version
+// negotiation does) frames exactly like a channel created with the lower one.
+func VerifC03_Lowered() {
+	lower := []int{24, 32}[ndChoice("lower", 2)]
+	conn := &vCaptureConn{}
+	ch := NewChannel(conn, 64)
+	ch.SetMSize(lower)
+	sel := ndChoice("frame", 3)
+	switch sel {
+	case 0: // oversize by k: overflow of exactly the excess w.r.t. the lowered msize
+		k := 1 + ndChoice("over", 12)
+		body := ndBytes("big", lower-4+k)
+		size := uint32(lower + k)
+		conn.in = append(le32(nil, size), body...)
+		vC03Check(ch, size, body, lower)
+	case 1: // a Twrite longer than the lowered msize but shorter than the original
+		data := ndBytes("data", lower-23+1+ndChoice("extra", 8))
+		body := refEncode(Twrite, Tag(ndU16("tag")), MessageTwrite{Fid: Fid(ndU32("fid")), Offset: ndU64("off"), Data: data})
+		conn.in = vFrame(body)
+		vC03Check(ch, uint32(len(body)+4), body, lower)
+	case 2: // a frame of exactly the lowered msize
+		data := ndBytes("data", lower-23)
+		body := refEncode(Twrite, Tag(ndU16("tag")), MessageTwrite{Fid: Fid(ndU32("fid")), Offset: ndU64("off"), Data: data})
+		conn.in = vFrame(body)
+		vC03Check(ch, uint32(len(body)+4), body, lower)
+	}
+	vReach("c03.lowered")
 }
